@@ -23,6 +23,7 @@ type state struct {
 	deleted map[string]bool // keys deleted at least once (per history, any map)
 	nval    int
 	aliased bool
+	mk      *m.Func // a function whose body evaluates one map literal on every call
 }
 
 func (s *state) val() m.Expr {
@@ -128,7 +129,7 @@ func (s *state) action(inLoopOver string, loopVar string, depth int) []m.Stmt {
 	if s.aliased && mv.Name == "m2" {
 		s.feats["through-alias"] = true
 	}
-	switch actionKind(rapid.IntRange(0, 29).Draw(s.t, "action")) {
+	switch actionKind(rapid.IntRange(0, 32).Draw(s.t, "action")) {
 	case 0, 1, 2:
 		return []m.Stmt{s.set(mv, s.key())}
 	case 3, 4:
@@ -180,6 +181,31 @@ func (s *state) action(inLoopOver string, loopVar string, depth int) []m.Stmt {
 			f.Body = append(f.Body, &m.If{Conds: []m.Expr{&m.Binary{Op: "==", L: &m.Var{Name: lv, Ty: m.TStr}, R: m.StrLit(s.key()), Ty: m.TBool}}, Blocks: [][]m.Stmt{{&m.Break{}}}})
 		}
 		return []m.Stmt{f}
+	case 10: // the same literal evaluated again: by a call of mk, or in a loop body
+		s.feats["literal-evaluated-again"] = true
+		if s.mk != nil && rapid.Bool().Draw(s.t, "viacall") {
+			return []m.Stmt{&m.Assign{Target: mv, Val: &m.Call{Fn: "mk", Ty: s.mt}}}
+		}
+		if depth <= 0 || inLoopOver != "" {
+			if s.mk != nil {
+				return []m.Stmt{&m.Assign{Target: mv, Val: &m.Call{Fn: "mk", Ty: s.mt}}}
+			}
+			return []m.Stmt{s.set(mv, s.key())}
+		}
+		lit := s.literal()
+		f := &m.ForNum{Stop: m.NumLit(float64(rapid.IntRange(2, 3).Draw(s.t, "rounds")))}
+		f.Body = append(f.Body, &m.Assign{Target: mv, Val: lit})
+		f.Body = append(f.Body, s.observe("fresh")...)
+		nb := rapid.IntRange(1, 3).Draw(s.t, "nbody")
+		for i := 0; i < nb; i++ {
+			if rapid.Bool().Draw(s.t, "delorset") {
+				f.Body = append(f.Body, s.del(mv, s.key()))
+			} else {
+				f.Body = append(f.Body, s.set(mv, s.key()))
+			}
+		}
+		f.Body = append(f.Body, s.observe("changed")...)
+		return []m.Stmt{f}
 	default: // unguarded lookup: a missing key ends the run with the map-key panic
 		k := s.key()
 		s.feats["unguarded-lookup"] = true
@@ -208,12 +234,18 @@ func TestProp(t *testing.T) {
 		}
 		stmts = append(stmts, &m.Decl{Name: "m3", Ty: s.mt, Typed: true})
 		s.vars = []string{"m1", "m2", "m3"}
+		if rapid.Bool().Draw(t, "mk") {
+			s.mk = &m.Func{Name: "mk", Ret: s.mt, Body: []m.Stmt{&m.Return{Val: s.literal()}}}
+		}
 		n := rapid.IntRange(5, 40).Draw(t, "nactions")
 		for i := 0; i < n; i++ {
 			stmts = append(stmts, s.action("", "", 2)...)
 			stmts = append(stmts, s.observe("s"+itoa(i))...)
 		}
 		prog := &m.Program{}
+		if s.mk != nil {
+			prog.Items = append(prog.Items, m.Item{F: s.mk})
+		}
 		for _, st := range stmts {
 			prog.Items = append(prog.Items, m.Item{S: st})
 		}
@@ -262,6 +294,8 @@ func actionKind(r int) int {
 		return 8
 	case r == 28:
 		return 9
+	case r <= 32:
+		return 10
 	}
 	return 0
 }
